@@ -624,7 +624,9 @@ fn judge_recursion(l: &mut Local) {
         }
     }
     // unbounded recursion through a function and through an asm rule are errors, not crashes
-    for src in ["#ruledef\n{\n    spin {x} => asm { spin {x} + 1 }\n}\n#d asm { spin 0 }\n", "#ruledef\n{\n    spin {x} => asm { spin {x} + 1 }\n}\nv = asm { spin 0 }\n#d8 v\n", "#ruledef\n{\n    ping => 0x11 @ asm { pong }\n    pong => 0x22 @ asm { ping }\n}\n#d asm { ping }\n", "#fn f(n) => f(n + 1)\nx = f(0)\n", "#ruledef\n{\n    spin {x} => asm { spin {x} + 1 }\n}\nspin 0\n", "#ruledef\n{\n    ping => 0x11 @ asm { pong }\n    pong => 0x22 @ asm { ping }\n}\nping\n"] {
+    // (cycles entered from a data element or a constant are C19's: they run there in a process of their own, where a
+    // missing limit costs one case and not this engine)
+    for src in ["#fn f(n) => f(n + 1)\nx = f(0)\n", "#ruledef\n{\n    spin {x} => asm { spin {x} + 1 }\n}\nspin 0\n", "#ruledef\n{\n    ping => 0x11 @ asm { pong }\n    pong => 0x22 @ asm { ping }\n}\nping\n"] {
         l.eval();
         let o = run::assemble_str(src, &Opts::default());
         l.nontrivial(src);
